@@ -12,6 +12,7 @@ import NGF.Proofs.Mangle
 import NGF.Proofs.ConfRegex
 import NGF.Spec.WellFormedConf
 import NGF.Generated.ConfNameFacts
+import NGF.Props.C03Render
 
 namespace NGF.Props.C03
 open NGF.Mangle
@@ -123,30 +124,8 @@ not end in `_` (implied by: no `--`, no trailing `-`, see `goodFor_safeVar`). -/
 theorem mangle_injective_groupVar_partial {ns ns' name name' : List Char} {i j : Nat}
     (hns : '_' ∉ ns) (hns' : '_' ∉ ns') (hn : '_' ∉ name) (hn' : '_' ∉ name')
     (hg : GoodFor '_' (safeVar ns) = true) (hg' : GoodFor '_' (safeVar ns') = true)
-    (h : groupVar ns name i = groupVar ns' name' j) : ns = ns' ∧ name = name' ∧ i = j := by
-  simp only [groupVar, groupName, lit, safeVar_append, safeVar_digits] at h
-  have e0 : safeVar "group_".toList = "group_".toList := by decide
-  have e1 : safeVar "__".toList = ['_', '_'] := by decide
-  have e2 : safeVar "_rule".toList = "_rule".toList := by decide
-  rw [e0, e1, e2] at h
-  simp only [List.append_assoc] at h
-  have h1 := List.append_cancel_left h
-  simp only [List.cons_append, List.nil_append] at h1
-  obtain ⟨a1, a2⟩ := dsep_inj hg hg' h1
-  -- a2 : safeVar name ++ "_rule" ++ digits i = safeVar name' ++ "_rule" ++ digits j ; split from the right
-  have r := congrArg List.reverse a2
-  simp only [List.reverse_append] at r
-  have e3 : "_rule".toList.reverse = 'e' :: "lur_".toList := by decide
-  rw [e3] at r
-  simp only [List.cons_append, List.append_assoc] at r
-  have nd : ∀ n, 'e' ∉ (digits n).reverse := fun n m =>
-    not_mem_digits_of_not_isDigit (c := 'e') (by decide) (List.mem_reverse.mp m)
-  obtain ⟨c1, c2⟩ := append_sep_inj (nd i) (nd j) r
-  have c3 := List.append_cancel_left c2
-  have c4 : safeVar name = safeVar name' := by simpa using congrArg List.reverse c3
-  have c5 : digits i = digits j := by simpa using congrArg List.reverse c1
-  exact ⟨safeVar_injective_of_no_underscore hns hns' a1, safeVar_injective_of_no_underscore hn hn' c4,
-    digits_injective c5⟩
+    (h : groupVar ns name i = groupVar ns' name' j) : ns = ns' ∧ name = name' ∧ i = j :=
+  groupVar_inj hns hns' hn hn' hg hg' h
 
 /-- a DNS label without `--` satisfies the hypothesis of the partial theorem -/
 theorem partial_hypothesis_from_dns {ns : List Char} (hu : '_' ∉ ns) (hh : GoodFor '-' ns = true) :
@@ -157,9 +136,8 @@ example : GoodFor '_' (safeVar "team-a".toList) = true ∧ GoodFor '_' (safeVar 
 /-- lexical class: for names made of `[A-Za-z0-9-]` the variable is a legal NGINX variable name -/
 theorem groupVar_lexable {ns name : List Char} (idx : Nat)
     (hns : ns.all isNameChar = true) (hn : name.all isNameChar = true) :
-    (groupVar ns name idx).all isVarChar = true := by
-  simp only [groupVar, groupName, lit, safeVar_append, safeVar_digits, List.all_append, Bool.and_eq_true]
-  exact ⟨⟨⟨⟨⟨by decide, isVarChar_safeVar hns⟩, by decide⟩, isVarChar_safeVar hn⟩, by decide⟩, isVarChar_digits idx⟩
+    (groupVar ns name idx).all isVarChar = true :=
+  groupVar_all_isVarChar idx hns hn
 
 example : (groupVar "team-a".toList "coffee-route".toList 12).all isVarChar = true := by decide
 
@@ -268,66 +246,16 @@ example : (sockPath (sockTLS 443 "cafe.example.com".toList)).length ≤ 107 := b
 /-- For path rules with pairwise distinct `(path, type)` the external locations generated for a
 server are pairwise distinct `(modifier, path)` keys: NGINX never sees a duplicate location. -/
 theorem locations_distinct (rules : List (List Char × PathType)) (hnd : rules.Nodup) :
-    (serverExternalLocs rules).Nodup := by
-  unfold serverExternalLocs
-  rw [List.nodup_iff_pairwise_ne, List.pairwise_flatMap]
-  constructor
-  · intro r _
-    rcases r with ⟨p, t⟩
-    cases t with
-    | exact => simp [externalLocs]
-    | «prefix» =>
-      simp only [externalLocs]
-      split
-      · simp
-      · split <;> split <;> simp
-  · refine List.Pairwise.imp_of_mem ?_ hnd
-    intro r s hr hs hne x hx y hy hxy
-    subst hxy
-    rcases r with ⟨p, t⟩
-    rcases s with ⟨q, u⟩
-    have hx' := mem_externalLocs hx
-    have hy' := mem_externalLocs hy
-    simp only [decide_eq_false_iff_not] at hx' hy'
-    rcases hx' with ⟨rfl, rfl⟩ | ⟨rfl, h1, rfl⟩ | ⟨rfl, h1, h2, rfl⟩ | ⟨rfl, h1, h2, rfl⟩ <;>
-    rcases hy' with ⟨rfl, e⟩ | ⟨rfl, g1, e⟩ | ⟨rfl, g1, g2, e⟩ | ⟨rfl, g1, g2, e⟩ <;>
-    simp only [Prod.mk.injEq, true_and, Bool.true_eq_false, Bool.false_eq_true, false_and] at e
-    all_goals first
-      | (subst e; exact hne rfl)
-      | (subst e; exact h2 hs)
-      | (subst e; exact g2 hr)
-      | (have := List.append_cancel_right e; subst this; exact hne rfl)
-      | (subst e; simp at h1)
-      | (subst e; simp at g1)
+    (serverExternalLocs rules).Nodup :=
+  serverExternalLocs_nodup rules hnd
 
 example : (serverExternalLocs [("/coffee".toList, .prefix), ("/coffee".toList, .exact), ("/coffee/".toList, .prefix),
     ("/tea".toList, .prefix)]).Nodup := by decide
 
 /-- external prefix locations always end in `/`, internal locations never do: they cannot clash -/
 theorem internal_vs_external (rules : List (List Char × PathType)) (i j : Nat) :
-    (false, internalLocPath i j) ∉ serverExternalLocs rules := by
-  intro h
-  simp only [serverExternalLocs, List.mem_flatMap] at h
-  obtain ⟨⟨p, t⟩, _, hk⟩ := h
-  have hlast : (internalLocPath i j).getLast? ≠ some '/' := by
-    simp only [internalLocPath, lit]
-    rw [List.getLast?_append]
-    intro e
-    have hne : (digits j).getLast? ≠ none := by
-      intro hn
-      exact digits_ne_nil j (List.getLast?_eq_none_iff.mp hn)
-    cases hd : (digits j).getLast? with
-    | none => exact hne hd
-    | some c =>
-      rw [hd] at e
-      have e' : c = '/' := by simpa using e
-      subst e'
-      exact not_mem_digits_of_not_isDigit (by decide) (List.mem_of_getLast? hd)
-  rcases mem_externalLocs hk with ⟨_, e⟩ | ⟨_, h1, e⟩ | ⟨_, _, _, e⟩ | ⟨_, _, _, e⟩
-  · simp at e
-  · simp only [Prod.mk.injEq, true_and] at e; rw [e] at hlast; exact hlast h1
-  · simp only [Prod.mk.injEq, true_and] at e; rw [e] at hlast; simp at hlast
-  · simp at e
+    (false, internalLocPath i j) ∉ serverExternalLocs rules :=
+  internalLoc_not_external rules i j
 
 /-! ## 4. The rewrite regex: accepted for plain paths, rejected for admissible paths with `(` -/
 
